@@ -11,7 +11,7 @@ import warnings
 from hypothesis import strategies as st
 
 from .. import convs, mutate, pdugen as g, refcmd, refpdu, simnet
-from ..common import Violation, HarnessError, hyp_search, parallel, lib_frame, VERIF_DIR, REPO, DEPS
+from ..common import Violation, HarnessError, hyp_search, parallel, lib_frame, VERIF_DIR, REPO, DEPS, quiet_warnings
 
 LEVEL = 'exploration'
 
@@ -282,7 +282,7 @@ def corpus_streams():
 
 
 def run_mutators(ctx, job):
-    warnings.simplefilter('ignore')
+    quiet_warnings()
     streams = corpus_streams()
     for i, (name, stream) in enumerate(streams):
         if i % job['of'] != job['part']:
@@ -341,7 +341,7 @@ def run_random(ctx, n):
 
 
 def shard_random(ctx, job):
-    warnings.simplefilter('ignore')
+    quiet_warnings()
     run_random(ctx, job['n'])
 
 
@@ -351,7 +351,7 @@ def shard_random(ctx, job):
 ATHERIS_TARGET = r'''
 import os, sys, warnings
 sys.dont_write_bytecode = True
-warnings.simplefilter('ignore')
+quiet_warnings()
 sys.path.insert(0, %(verif)r)
 sys.path.insert(1, %(deps)r)
 os.environ['VERIF_REPO'] = %(repo)r
@@ -440,7 +440,7 @@ def run_atheris(ctx, shards, runs):
 
 
 def run(ctx):
-    warnings.simplefilter('ignore')
+    quiet_warnings()
     ctx.rule = ('for each of 14 protocol-state prefixes (Sta2 with a silent and with an accepting local user, 3, 5, 6 both roles and mid-message, 7, 8, the collision states 9-12, 13): structure-aware mutations '
                 'of 9 valid PDUs (truncation with/without fixed length, every length field set to 0/1/len-1/len+1/'
                 'FFFF/FFFFFFFF, type bytes at every nesting level, control header, context id, non-ASCII bytes), 20 '
@@ -465,5 +465,5 @@ def run(ctx):
 
 
 def replay(case):
-    warnings.simplefilter('ignore')
+    quiet_warnings()
     run_stream(case['state'], case['stream'], case.get('mode', 0))
